@@ -310,7 +310,10 @@ class Pool:
     the copies of a snapshot are removed as soon as its last scheduled chunk is done."""
 
     def __init__(self):
-        self.dir = tempfile.mkdtemp(prefix="hwv-c18-", dir=os.environ.get("TMPDIR", "/tmp"))
+        # $TMPDIR when set; otherwise a memory file system if there is one (creating and deleting ~10^5 small
+        # files per run dominates the wall time on a disk), else /tmp
+        base = os.environ.get("TMPDIR") or ("/dev/shm" if os.path.isdir("/dev/shm") and os.access("/dev/shm", os.W_OK) else "/tmp")
+        self.dir = tempfile.mkdtemp(prefix="hwv-c18-", dir=base)
         self.n = 0
         self.lock = threading.Lock()
 
@@ -474,6 +477,10 @@ def case_script(cid, case, top):
     src = src_lines(snap, root, comps)
     ls = ["echo CASE %d" % cid, "echo RESET", "root " + root, "stash " + os.path.join(top, "stash")]
     ls += ["hide " + p for p in removals]
+    if env.get("_light"):
+        # one load only: dump (wf_check, levels) + hwloc_topology_check; used for the systematic single removals
+        ls += ["new"] + cfg + ["flags %d" % flags] + src + ["load", "dump", "echo NAME M", "check", "destroy", "unhide", "echo END %d" % cid]
+        return ls
     other = flags ^ 1
     ls += ["new"] + cfg + ["flags %d" % flags] + src + ["load", "dump", "echo NAME M", "check", "xmlrt", "echo NAME X", "destroy"]
     ls += ["new"] + cfg + ["flags %d" % flags] + src + ["load", "dump", "echo NAME M2", "destroy"]
@@ -722,11 +729,11 @@ def make_snapshot_cases(run, pool, snaps):
         comps, env, filters, flags = gen_config(rng, snap, plain=True)
         cases.append(("pristine", (snap, comps, env, [], 0, [])))
         # 2. configurations without removal
-        for _ in range(3 if quick else 8):
+        for _ in range(3 if quick else 16):
             comps, env, filters, flags = gen_config(rng, snap)
             cases.append(("config", (snap, comps, env, filters, flags, [])))
         # 3. random removal sets (up to 40 paths) x random configuration
-        for _ in range(22 if quick else 40):
+        for _ in range(22 if quick else 80):
             comps, env, filters, flags = gen_config(rng, snap, plain=rng.random() < 0.3)
             pool_paths = rem
             if snap.kind == "x86+linux":
@@ -739,24 +746,56 @@ def make_snapshot_cases(run, pool, snaps):
             singles = sorted(set(rng.choices(sysrem, weights=[G.interest(p) for p in sysrem], k=24))) if sysrem else []
             pairs = []
         else:
-            # small snapshots: every single removal (<= 60 removable paths) and every pair (<= 12) is enumerated;
+            # small snapshots: every single removal (<= 150 removable paths) and every pair (<= 16) is enumerated;
             # larger ones are sampled, biased to the files discovery reads
-            if len(sysrem) <= 60:
+            if len(sysrem) <= 150:
                 singles = list(sysrem)
                 enumerated.setdefault("singles", []).append(snap.rel)
             else:
-                singles = sorted(set(rng.choices(sysrem, weights=[G.interest(p) for p in sysrem], k=80)))
-            if 2 <= len(sysrem) <= 12:
+                singles = sorted(set(rng.choices(sysrem, weights=[G.interest(p) for p in sysrem], k=200)))
+            if 2 <= len(sysrem) <= 16:
                 pairs = [(a, b) for i, a in enumerate(sysrem) for b in sysrem[i + 1:] if not b.startswith(a + "/")]
                 enumerated.setdefault("pairs", []).append(snap.rel)
-            elif len(sysrem) > 12:
-                pairs = [tuple(sorted(rng.sample(sysrem, 2))) for _ in range(40)]
+            elif len(sysrem) > 16:
+                pairs = [tuple(sorted(rng.sample(sysrem, 2))) for _ in range(80)]
             else:
                 pairs = []
         for p in singles:
             cases.append(("single", (snap, comps, env, [], rng.choice([0, 0, 1]), [p])))
         for a, b in pairs:
             cases.append(("pair", (snap, comps, env, [], rng.choice([0, 0, 1]), G.normalise([a, b]))))
+    return cases
+
+
+def class_of(p):
+    return re.sub(r"\d+", "N", p)
+
+
+def class_cases(run, pool, snaps):
+    """Systematic single removals of attribute files under sys/devices/system (x86: the cpuid dump): one
+    light case per (snapshot x file-name class) - the instance rotates with the seed - in the quick tier,
+    up to 24 instances per class in the thorough tier."""
+    quick = run.tier == "quick"
+    cases = []
+    nclasses = 0
+    for snap in snaps:
+        rem = removable_of(pool, snap)
+        sysrem = [p for p in rem if "sys/devices/system/" in p or snap.kind == "x86" or "cpuid/" in p]
+        classes = {}
+        for p in sysrem:
+            classes.setdefault(class_of(p), []).append(p)
+        comps, env, filters, flags = gen_config(run.rng, snap, plain=True)
+        env = dict(env)
+        env["_light"] = "1"
+        for cls in sorted(classes):
+            inst = classes[cls]
+            nclasses += 1
+            k = 1 if quick else min(len(inst), 24)
+            start = (run.seed * 7 + len(cls)) % len(inst)
+            step = max(1, len(inst) // k)
+            for j in range(k):
+                cases.append(("class", (snap, comps, env, [], 0, [inst[(start + j * step) % len(inst)]])))
+    run.cov["file_name_classes"] = nclasses
     return cases
 
 
@@ -795,6 +834,9 @@ def check_snapshots(run, snapexe, drv, replay_case=None):
             if c is not None:
                 labelled.append(("corpus", c))
         labelled += make_snapshot_cases(run, pool, snaps)
+        allsnaps = [by_rel.get(os.path.relpath(t, os.path.join(C.REPO, "tests/hwloc"))) or Snap(t)
+                    for k in ("linux", "x86", "x86+linux") for t in S.snapshots(k)]
+        labelled += class_cases(run, pool, allsnaps)
         run.cov["snapshots_used"] = sorted(s.rel for s in snaps)
         # judge per label so that the evidence shows the distribution
         cases = [c for _, c in labelled]
